@@ -204,6 +204,53 @@ def check_outputs(calls, ctx, findings, where, limit):
             )
 
 
+def _returned_moves_legal(res, ctx, findings, tree, whole, draws):
+    """(d) of check_run: whatever index the sampler draws, the move handed back is legal"""
+    import attrs
+    from tak import mcts
+
+    case = res.case
+    rec, engine = res.rec, res.engine
+    # (d) returned moves are legal
+    moves = []
+    rec.sampler_backup = rec.sampler
+    roots = [t for t in ([tree] if tree is whole else [tree, whole]) if t.children]
+    with rec:
+        for k in range(draws if roots else 0):
+            rec.sampler = ["torch", "uniform", "last", "first"][k % 4]
+            t = roots[k % len(roots)]
+            try:
+                m = engine.select_root_move(t)
+            except Exception as e:
+                findings.append(Finding("illegal-move-returned", "select_root_move raised %s: %s" % (type(e).__name__, str(e)[:100])))
+                break
+            moves.append(("select_root_move", m, ser.pos_str(t.position)))
+    rec.sampler = rec.sampler_backup
+    if case["budget"] <= 30 and case["evaluator"] != "network":
+        ev2 = td.Recorder(td.make_evaluator(case), case["sampler"], case["sseed"] + 1)
+        cfg = attrs.evolve(engine.config, simulation_limit=case["budget"])
+        eng2 = mcts.MCTS(cfg, ev2)
+        with ev2:
+            try:
+                moves.append(("get_move", eng2.get_move(res.pos), ser.pos_str(res.pos)))
+            except Exception as e:
+                check_outputs(ev2.solver_calls, ctx, findings, "during get_move", 10)
+                if not any(f.key == "solver-nonfinite" for f in findings):
+                    findings.append(Finding("illegal-move-returned", "get_move raised %s: %s" % (type(e).__name__, str(e)[:100])))
+    lines = []
+    for how, m, root_pos in moves:
+        try:
+            lines.append("move rules %s %s" % (root_pos, ser.move_str(m)))
+        except Exception:
+            lines.append("move rules %s 0 0 0 none" % root_pos)
+    for (how, m, root_pos), o in zip(moves, driver.run_lines(lines) if lines else []):
+        if ctx is not None:
+            ctx.evaluated()
+            ctx.count("move:" + how)
+        if not o.startswith("legal "):
+            findings.append(Finding("illegal-move-returned", "%s returned %r, which the rules do not allow in [%s] (driver: %s)" % (how, m, root_pos, o)))
+
+
 def check_run(res, ctx=None, draws=12):
     import attrs
     import torch
@@ -221,6 +268,13 @@ def check_run(res, ctx=None, draws=12):
     if res.error is not None and ctx is not None:
         ctx.count("search-aborted")
     if res.tree is None or not res.phases or res.error is not None:
+        if getattr(res, "unreadable", None) is not None and res.tree is not None:
+            # the tree cannot be dumped (a child's position cannot be read): the moves it hands
+            # back are still put to the rules
+            try:
+                _returned_moves_legal(res, ctx, findings, res.tree, res.tree, draws)
+            except Exception as e:
+                findings.append(Finding("illegal-move-returned", "asking the engine for a move on its own tree raised %s: %s" % (type(e).__name__, str(e)[:100])))
         return findings
 
     # the whole tree grown from the first root, as it stands NOW: when a child was searched on its own
@@ -321,44 +375,7 @@ def check_run(res, ctx=None, draws=12):
         if not same:
             findings.append(Finding("unvisited-not-prior", "policy_probs of node %s with simulations=0: implementation [%s], model (the prior) [%s]" % (td.path_str(path), io[:80], mo[:80]), {"path": td.path_str(path)}))
 
-    # (d) returned moves are legal
-    moves = []
-    rec.sampler_backup = rec.sampler
-    roots = [t for t in ([tree] if tree is whole else [tree, whole]) if t.children]
-    with rec:
-        for k in range(draws if roots else 0):
-            rec.sampler = ["torch", "uniform", "last", "first"][k % 4]
-            t = roots[k % len(roots)]
-            try:
-                m = engine.select_root_move(t)
-            except Exception as e:
-                findings.append(Finding("illegal-move-returned", "select_root_move raised %s: %s" % (type(e).__name__, str(e)[:100])))
-                break
-            moves.append(("select_root_move", m, ser.pos_str(t.position)))
-    rec.sampler = rec.sampler_backup
-    if case["budget"] <= 30 and case["evaluator"] != "network":
-        ev2 = td.Recorder(td.make_evaluator(case), case["sampler"], case["sseed"] + 1)
-        cfg = attrs.evolve(engine.config, simulation_limit=case["budget"])
-        eng2 = mcts.MCTS(cfg, ev2)
-        with ev2:
-            try:
-                moves.append(("get_move", eng2.get_move(res.pos), ser.pos_str(res.pos)))
-            except Exception as e:
-                check_outputs(ev2.solver_calls, ctx, findings, "during get_move", 10)
-                if not any(f.key == "solver-nonfinite" for f in findings):
-                    findings.append(Finding("illegal-move-returned", "get_move raised %s: %s" % (type(e).__name__, str(e)[:100])))
-    lines = []
-    for how, m, root_pos in moves:
-        try:
-            lines.append("move rules %s %s" % (root_pos, ser.move_str(m)))
-        except Exception:
-            lines.append("move rules %s 0 0 0 none" % root_pos)
-    for (how, m, root_pos), o in zip(moves, driver.run_lines(lines) if lines else []):
-        if ctx is not None:
-            ctx.evaluated()
-            ctx.count("move:" + how)
-        if not o.startswith("legal "):
-            findings.append(Finding("illegal-move-returned", "%s returned %r, which the rules do not allow in [%s] (driver: %s)" % (how, m, root_pos, o)))
+    _returned_moves_legal(res, ctx, findings, tree, whole, draws)
     return findings
 
 
